@@ -59,7 +59,7 @@ type c11Model struct {
 func TestVerifC11Histories(t *testing.T) {
 	r := vkit.Start(t, "C11", "histories", 240*time.Second, 1500*time.Second)
 	defer r.Finish()
-	r.Rule = "every sequence of <= D operations over {prepare cache, revoke other, revoke self (once), update witness, refresh time, prove+verify}; a state is the history, replayed on a fresh issuer world and credential (real code), stepped against a model (accumulator index, witness index, revokedAt, witness time); non-trivial = distinct sequence containing at least one prove; oracle: prove succeeds and verifies (16 verifications) iff the model says the witness is valid for the accumulator it points to (always, since a revoked witness cannot advance), accepted proof reports index/time/Nu of the model's witness accumulator, update result class as in the model"
+	r.Rule = "every sequence of <= D operations over {prepare cache, revoke other, revoke self (once), update witness, refresh time, prove+verify}; a state is the history, replayed on a fresh issuer world and credential (real code), stepped against a model (accumulator index, witness index, revokedAt, witness time); non-trivial = distinct sequence containing at least one prove; oracle: prove succeeds and verifies (16 verifications) iff the model says the witness is valid for the accumulator it points to (always, since a revoked witness cannot advance), accepted proof reports index/time/Nu of the model's witness accumulator, update result class as in the model; in every state the holder's witness verifies against the accumulator it carries"
 	D := vkit.Pick(4, 6)
 	r.Bounds["max_depth"] = D
 	for _, keyName := range vkit.Pick([]string{"toyB"}, []string{"toyB", "k1024a"}) {
@@ -104,6 +104,12 @@ func TestVerifC11Histories(t *testing.T) {
 				r.Transitions++
 				r.Traces++
 				rep := map[string]any{"key": keyName, "sequence": name, "step": step}
+				// invariant of every reachable state: the holder's witness is valid for the accumulator it carries
+				// (an operation - also a successful proof - must not damage it)
+				if verr := cred.NonRevocationWitness.Verify(k.Pk); verr != nil {
+					r.Violate("C11|holders-witness-damaged", fmt.Sprintf("%s: before step %d the witness no longer verifies against its own accumulator: %v", name, step, verr), rep)
+					return
+				}
 				switch c11Ops[o] {
 				case "prepare":
 					if err := cred.NonrevPrepareCache(); err != nil {
@@ -179,6 +185,9 @@ func TestVerifC11Histories(t *testing.T) {
 						r.Violate("C11|revoked-credential-proved-nonrevocation", fmt.Sprintf("%s: revoked at %d, accepted proof against accumulator %d", name, m.revokedAt, acc.Index), rep)
 					}
 				}
+			}
+			if verr := cred.NonRevocationWitness.Verify(k.Pk); verr != nil {
+				r.Violate("C11|holders-witness-damaged", fmt.Sprintf("%s: after the last step the witness no longer verifies against its own accumulator: %v", name, verr), map[string]any{"key": keyName, "sequence": name})
 			}
 			r.Sample(map[string]any{"key": keyName, "sequence": name})
 		}
